@@ -13,7 +13,7 @@ class Prop:
     id = "C35"
     level = "exploration"
     engine = "VT+TH (virtual-time schedulers single-threaded; event-loop / new-thread / timeout schedulers under controlled threads)"
-    quick_runs = 30000
+    quick_runs = 20000
     thorough_runs = 400000
     chunk = 100
     time_unit = "virtual seconds (VT part) / simulated seconds (TH part)"
